@@ -149,8 +149,8 @@ xrep0_pipe_init(void *arg, nni_pipe *pipe, void *s)
 	// essentially don't let peers send requests faster than they are
 	// willing to receive replies.  Something to think about for the
 	// future.)
+	// NB: on failure the framework closes, stops and finalizes the pipe.
 	if ((rv = nni_msgq_init(&p->sendq, 64)) != 0) {
-		xrep0_pipe_fini(p);
 		return (rv);
 	}
 	return (0);
